@@ -140,6 +140,9 @@ func (c *Conn) ReadFrom(r io.Reader) (n int64, err error) {
 
 	// if there is no available buffer, create one.
 	if !bufNode.recyclable() || cap(bufNode.buf) == 0 {
+		// a node of its own: what is left of the current node must not be carved
+		// (the node is reset below, and a node that is not recyclable stays full after Flush)
+		c.outputBuffer.len = 0
 		c.Malloc(block4k)
 		c.outputBuffer.write.Reset()
 		c.outputBuffer.len = cap(c.outputBuffer.write.buf)
